@@ -28,7 +28,14 @@ def _features(region, delegates_frombuffer=False):
     post = any(any(d.replace(' ', '') in ('len(self)!=length', 'length!=len(self)') for d in ds) for _, ds in txts)
     neglen = post or delegates_frombuffer or any(any(d.replace(' ', '') in ('length<0', '0>length') or d.replace(' ', '').endswith('andlength<0') for d in ds) for _, ds in txts)
     offbeyond = any(any(d.startswith('offset >') or d.startswith('offset >=') for d in ds) for _, ds in txts)
-    lenbeyond = post or delegates_frombuffer or any(any(('length' in d and 'offset' in d and '>' in d) for d in ds) for _, ds in txts)
+    lenbeyond = post or delegates_frombuffer
+    for i in ifs:
+        for d in G.disjuncts(i.test):
+            if isinstance(d, ast.Compare) and len(d.ops) == 1 and isinstance(d.ops[0], (ast.Gt, ast.GtE, ast.Lt, ast.LtE)):
+                big, small = (d.left, d.comparators[0]) if isinstance(d.ops[0], (ast.Gt, ast.GtE)) else (d.comparators[0], d.left)
+                form = _lin_sub(_lin(big), _lin(small))
+                if form.get('length', 0) > 0 and any(v > 0 for k, v in form.items() if isinstance(k, str) and 'offset' in k):
+                    lenbeyond = True
     slicers = set()
     for s in region:
         for x in ast.walk(s):
@@ -174,4 +181,156 @@ def rule_LV(ctx):
                    "a value of the wrong size is accepted instead of CreationError", loc=f.loc())
         else:
             r.ok(f.key, {'instance': f.key, 'route': what, 'guard': norm(ok.test)})
+    return r
+
+
+# ------------------------------------------------------------------ WIN: the bounds test protects the window that is taken
+def _lin(e):
+    """Linear form {atom: coeff} (constant under key 1) of sums, differences and products with integer constants; any
+    other sub-expression is an opaque atom named by its source text."""
+    out = {}
+
+    def add(k, v):
+        out[k] = out.get(k, 0) + v
+
+    def rec(x, c):
+        if isinstance(x, ast.Constant) and isinstance(x.value, int) and not isinstance(x.value, bool):
+            add(1, c * x.value)
+        elif isinstance(x, ast.BinOp) and isinstance(x.op, ast.Add):
+            rec(x.left, c)
+            rec(x.right, c)
+        elif isinstance(x, ast.BinOp) and isinstance(x.op, ast.Sub):
+            rec(x.left, c)
+            rec(x.right, -c)
+        elif isinstance(x, ast.BinOp) and isinstance(x.op, ast.Mult) and isinstance(x.right, ast.Constant) and isinstance(x.right.value, int):
+            rec(x.left, c * x.right.value)
+        elif isinstance(x, ast.BinOp) and isinstance(x.op, ast.Mult) and isinstance(x.left, ast.Constant) and isinstance(x.left.value, int):
+            rec(x.right, c * x.left.value)
+        elif isinstance(x, ast.UnaryOp) and isinstance(x.op, ast.USub):
+            rec(x.operand, -c)
+        else:
+            add(ast.unparse(x), c)
+    rec(e, 1)
+    return {k: v for k, v in out.items() if v}
+
+
+def _lin_sub(a, b, kb=1):
+    out = dict(a)
+    for k, v in b.items():
+        out[k] = out.get(k, 0) - kb * v
+    return {k: v for k, v in out.items() if v}
+
+
+def _lin_scale(a, k):
+    return {x: v * k for x, v in a.items()}
+
+
+def _fmt_lin(a):
+    return ' + '.join(f'{v}*{k}' if k != 1 else str(v) for k, v in sorted(a.items(), key=lambda kv: str(kv[0]))) or '0'
+
+
+def _ceil_bytes(e):
+    """For `(E + 7) // 8 [- K]` return the linear form of E - 8*K (the number of bits the byte count covers, counted from
+    the lower byte bound); None if the expression has another shape."""
+    k = {}
+    if isinstance(e, ast.BinOp) and isinstance(e.op, ast.Sub):
+        k = _lin(e.right)
+        e = e.left
+    if isinstance(e, ast.BinOp) and isinstance(e.op, ast.FloorDiv) and isinstance(e.right, ast.Constant) and e.right.value == 8:
+        num = _lin(e.left)
+        if num.get(1, 0) == 7:
+            num = _lin_sub(num, {1: 7})
+            return _lin_sub(num, k, 8)
+    return None
+
+
+def rule_WIN(ctx):
+    """Windowed ingest (bytes / bitarray / BytesIO with offset and length): the raising bounds test must bound exactly the
+    end of the window that is sliced out afterwards - same coefficients for every window variable (offset, length, byte
+    offset) - and a byte-level pre-slice must cover the bit window taken from it.  A test that forgets one component lets
+    an out-of-range window through (it is then silently truncated); a byte slice that is too short truncates silently."""
+    m = ctx.m
+    r = RuleResult('WIN', 'windowed ingest: the bounds test equals (as a linear form) the end of the window sliced out; byte pre-slices cover the bit window')
+    bits = m.classes['Bits']
+    regions = []
+    for nm in ('_setbytes_with_truncation', '_setbitarray'):
+        f = bits.methods.get(nm)
+        if f is None:
+            raise AnalysisError(f'anchor vanished: Bits.{nm}')
+        regions.append((nm, f, G.body_wo_doc(f)))
+    sa = bits.methods.get('_setauto')
+    if sa is None:
+        raise AnalysisError('anchor vanished: Bits._setauto')
+    bio = [x for x in own_walk(sa.node) if isinstance(x, ast.If) and 'BytesIO' in ast.unparse(x.test) and 'isinstance' in ast.unparse(x.test)
+           and any('frombytes' in ast.unparse(y) for y in x.body)]
+    if not bio:
+        raise AnalysisError('Bits._setauto: BytesIO branch not found')
+    regions.append(('_setauto[BytesIO]', sa, bio[0].body))
+    for nm, f, region in regions:
+        stores = [x for s in region for x in ast.walk(s) if isinstance(x, ast.Assign) and ast.unparse(x.targets[0]) == 'self._bitstore']
+        windows = []
+        for st in stores:
+            bit_hi = byte_lo = byte_hi = None
+            for x in ast.walk(st.value):
+                if isinstance(x, ast.Call) and isinstance(x.func, ast.Attribute) and x.func.attr.startswith('getslice') and len(x.args) == 2:
+                    if not (isinstance(x.args[1], ast.Constant) and x.args[1].value is None):
+                        bit_hi = x.args[1]
+                elif isinstance(x, ast.Subscript) and isinstance(x.slice, ast.Slice) and x.slice.upper is not None:
+                    inside_frombytes = any(isinstance(c, ast.Call) and ast.unparse(c.func).endswith('frombytes') and any(x is y for a in c.args for y in ast.walk(a))
+                                           for c in ast.walk(st.value))
+                    if inside_frombytes:
+                        byte_lo, byte_hi = x.slice.lower, x.slice.upper
+                    else:
+                        bit_hi = x.slice.upper
+            if bit_hi is not None:
+                windows.append((st, bit_hi, byte_lo, byte_hi))
+        if not windows:
+            raise AnalysisError(f'{nm}: no bounded window found in the store of self._bitstore (needs a human)')
+        guards = []
+        for i in _ifs(region):
+            if not _raising(i):
+                continue
+            for d in G.disjuncts(i.test):
+                if isinstance(d, ast.Compare) and len(d.ops) == 1 and isinstance(d.ops[0], (ast.Gt, ast.GtE)):
+                    guards.append((i, d, _lin_sub(_lin(d.left), _lin(d.comparators[0]))))
+                elif isinstance(d, ast.Compare) and len(d.ops) == 1 and isinstance(d.ops[0], (ast.Lt, ast.LtE)):
+                    guards.append((i, d, _lin_sub(_lin(d.comparators[0]), _lin(d.left))))
+        for st, bit_hi, byte_lo, byte_hi in windows:
+            end = _lin(bit_hi)
+            if byte_lo is not None:
+                for k, v in _lin_scale(_lin(byte_lo), 8).items():
+                    end[k] = end.get(k, 0) + v
+            wvars = {k for k in end if k != 1}
+            ok = None
+            for i, d, form in guards:
+                if i.lineno > st.lineno:
+                    continue
+                rest = {k: v for k, v in form.items() if k not in wvars and k != 1}
+                unit = -8 if 'frombytes' in ast.unparse(st.value) else -1      # the size of a bytes source counts bytes
+                if all(form.get(k, 0) == end[k] for k in wvars) and rest and all(v == unit for v in rest.values()) and form.get(1, 0) == end.get(1, 0):
+                    ok = d
+                    break
+            if ok is not None:
+                r.ok(f'{nm}:{norm(st)}', {'instance': nm, 'window_end_bits': _fmt_lin(end), 'guard': norm(ok)})
+            else:
+                r.fail(f.key, st, f'the {nm.strip("_")} route takes the window ending at bit {_fmt_lin(end)} of the source, but no raising bounds test '
+                       f'before it compares exactly that with the size of the data (tests found: {[norm(d) for _, d, _ in guards]}): a window '
+                       'reaching past the end is truncated silently instead of raising CreationError', loc=f.loc(st),
+                       extra={'props': ['C15', 'C17', 'C08']})
+            if byte_lo is not None:
+                span = _lin_sub(_lin(byte_hi), _lin(byte_lo))
+                names = [k for k in span if k != 1]
+                cover = None
+                if len(names) == 1 and span == {names[0]: 1}:
+                    defs = [x for s in region for x in ast.walk(s) if isinstance(x, ast.Assign) and ast.unparse(x.targets[0]) == names[0]]
+                    if len(defs) == 1:
+                        cover = _ceil_bytes(defs[0].value)
+                if cover is None:
+                    raise AnalysisError(f'{nm}: byte count of the pre-slice is not of the form (bits + 7) // 8 [- k] (needs a human)')
+                if cover == _lin(bit_hi):
+                    r.ok(f'{nm}:byte cover', {'instance': nm, 'bytes_cover_bits': _fmt_lin(cover), 'bit_window_end': _fmt_lin(_lin(bit_hi))})
+                else:
+                    r.fail(f.key, defs[0], f'the byte pre-slice of the {nm.strip("_")} route covers {_fmt_lin(cover)} bits from its first byte but the bit '
+                           f'window taken from it ends at {_fmt_lin(_lin(bit_hi))}: the last bits are cut off silently', loc=f.loc(defs[0]),
+                           extra={'props': ['C17', 'C15', 'C08']})
     return r
